@@ -223,7 +223,19 @@ bad = []
 tz = datetime.timezone(datetime.timedelta(hours=5))
 naive = datetime.datetime(2020, 1, 1, 12)
 aware = naive.astimezone().astimezone(tz)
-vals = [None, False, True, 0, 1, 1.0, 2.5, '', 'a', 'b', naive, aware, datetime.date(2020, 1, 1), [], [1], [1, 2], [1.0], {}, {'a': 1}, {'a': 2}, len]
+vals = [None, False, True, 0, 1, 1.0, 2.5, '', 'a', 'b', naive, aware, datetime.date(2020, 1, 1), [], [1], [1, 2], [1.0], {}, {'a': 1}, {'a': 2}, len,
+        # machine-number edges (the logic treats ints and floats as mathematical numbers): integers around 2**53 against
+        # floats, infinities, an int beyond the float range
+        2 ** 53, 2 ** 53 + 1, float(2 ** 53), -(2 ** 53) - 1, float('inf'), float('-inf'), 10 ** 400, -1e308, 1e308]
+nums = [v for v in vals if isinstance(v, (int, float)) and not isinstance(v, bool)]
+for a in nums:
+    for b in nums:
+        for c in nums:
+            try:
+                if value_compare(a, b) <= 0 and value_compare(b, c) <= 0 and value_compare(a, c) > 0:
+                    bad.append({'what': 'not transitive', 'values': [repr(a), repr(b), repr(c)]})
+            except Exception:
+                pass
 for a in vals:
     for b in vals:
         try:
